@@ -26,13 +26,13 @@ Definition obs_eqb (a b : obs) : bool :=
 Definition c15_prop_ok (l : list obs) : bool := nonzero_ok l && young_ok l && given_kept l.
 
 (* ---------- family seq: one caller, requests and acknowledgements interleaved ---------- *)
-(* (start counter, history, observed) *)
-Definition c15_seq_case := (N * list hev * list obs)%type.
+(* (start counter, history, observed, counter value read back afterwards) *)
+Definition c15_seq_case := (N * list hev * list obs * N)%type.
 
 Definition c15_seq_model_ok (c : c15_seq_case) : bool :=
-  let '(s, h, o) := c in list_eqb obs_eqb (run_seq s h) o.
+  let '(s, h, o, fin) := c in list_eqb obs_eqb (run_seq s h) o && (final_counter s h =? fin).
 Definition c15_seq_prop_ok (c : c15_seq_case) : bool :=
-  let '(s, h, o) := c in c15_prop_ok o.
+  let '(s, h, o, fin) := c in c15_prop_ok o.
 
 Definition c15_seq_violations (cs : list c15_seq_case) : list nat :=
   indices_where (fun c => negb (c15_seq_prop_ok c)) cs.
@@ -100,15 +100,17 @@ Fixpoint split_descent (l : list N) : list N * list N :=
 Definition sort_cyclic (l : list N) : list N := let '(a, b) := split_descent l in b ++ a.
 
 (* ---------- family bulk: n requests issued at the same time by n goroutines ---------- *)
-(* (start counter, n, all outstanding together?, observed identifiers sorted numerically, as runs) *)
-Definition c15_bulk_case := (N * N * bool * list (N * N))%type.
+(* (start counter, n, all outstanding together?, observed identifiers sorted numerically, as runs,
+   counter value read back afterwards) *)
+Definition c15_bulk_case := (N * N * bool * list (N * N) * N)%type.
 
 Definition c15_bulk_model_ok (c : c15_bulk_case) : bool :=
-  let '(s, n, outst, rs) := c in
-  list_eqb N.eqb (sort_cyclic (auto_ids (run_seq s (repeat (HReq (RPub 1 0)) (N.to_nat n)))))
-                 (expand_runs rs).
+  let '(s, n, outst, rs, fin) := c in
+  let h := repeat (HReq (RPub 1 0)) (N.to_nat n) in
+  list_eqb N.eqb (sort_cyclic (auto_ids (run_seq s h))) (expand_runs rs)
+  && (final_counter s h =? fin).
 Definition c15_bulk_prop_ok (c : c15_bulk_case) : bool :=
-  let '(s, n, outst, rs) := c in
+  let '(s, n, outst, rs, fin) := c in
   let ids := expand_runs rs in
   forallb (fun x => (0 <? x) && (x <? M16)) ids && (negb outst || strictly_inc ids).
 
